@@ -668,6 +668,21 @@ def template_schemas(rng, with_signers):
         # the shared pattern is the highest-numbered named pattern; temporaries next to it
         out.append({'rules': [R('#pkt', [L('L0'), P(p1), P(p2), P('_')], None, [k1]), R(k1, [L('L1'), P(p1), P(p2)], None, [k2]),
                               R(k2, [L('L2'), P('_'), P(p2)])]})
+    if with_signers:
+        # the application's OWN '$eq' (true if ANY argument equals) and '$eq_type' (true if every argument has the component's LENGTH)
+        # differ from the library's built-ins of the same names: what the application handed to the checker is what the calls mean
+        out.append({'rules': [R('#pkt', [L('L0'), P(p1)], None, ['#k1', '#k2']),
+                              R('#k1', [L('L1'), P(p2)], [[(p2, [('fn', '$eq', [L(a), L(b)])])]]),
+                              R('#k2', [L('L2'), P(p2)], [[(p2, [('fn', '$eq_type', [L('zz')])])]])],
+                    'probes': [(['L0', 'zz'], ['L1', a]), (['L0', 'zz'], ['L1', b]), (['L0', 'zz'], ['L1', c]), (['L0', 'zz'], ['L2', a]), (['L0', 'zz'], ['L2', 'zz']),
+                               (['L0', 'zz'], ['L2', 'KEY'])]})
+        # a constraint whose only option names a pattern that is matched LATER in the same name is not satisfiable where it is checked
+        # (documented); the mirror-image constraint (the later pattern constrained by the earlier one) is
+        out.append({'rules': [R('#pkt', [L('L0'), P(p3)], None, ['#k1', '#k2']),
+                              R('#k1', [L('L1'), P(p1), P(p2)], [[(p1, [P(p2)])]]),
+                              R('#k2', [L('L2'), P(p1), P(p2)], [[(p2, [P(p1)])]])],
+                    'probes': [(['L0', 'zz'], ['L1', a, a]), (['L0', 'zz'], ['L1', a, b]), (['L0', 'zz'], ['L2', a, a]), (['L0', 'zz'], ['L2', a, b]),
+                               (['L0', 'zz'], ['L1', 'zz', 'zz']), (['L0', 'zz'], ['L2', 'zz', 'zz'])]})
     # schemas that use the library's built-in functions only, checked with the library's DEFAULT_USER_FNS: one and two arguments,
     # patterns and literals, typed literals for $eq_type
     if not with_signers:
